@@ -463,6 +463,10 @@ class Plugin:
         return cur
 
 
+def header_for(plugin, case):
+    return plugin.header_for(case) if hasattr(plugin, "header_for") else plugin.header
+
+
 def run_check(plugin, tier=None, replay=None):
     t0 = time.time()
     tier, seed = tier_and_seed(tier)
@@ -475,6 +479,8 @@ def run_check(plugin, tier=None, replay=None):
     log(f"{prop}: proofs {pinfo['discharged']}/{pinfo['obligations']} discharged, build_ok={pinfo['build_ok']}")
 
     harness_build(plugin.harness_bin)
+    for b in getattr(plugin, "extra_bins", ()):
+        harness_build(b)
     if plugin.coq_targets:
         ok, out = coq_make(list(plugin.coq_targets))
         if not ok:
@@ -516,7 +522,7 @@ def run_check(plugin, tier=None, replay=None):
         reported.add(key)
         so, _, smon = plugin.evaluate([small])
         try:
-            model_val = coq_eval_terms(prop, plugin.header, [f"{plugin.model_fn} ({plugin.coq_case(small)})"])
+            model_val = coq_eval_terms(prop, header_for(plugin, small), [f"{plugin.model_fn} ({plugin.coq_case(small)})"])
         except (CheckError, NotImplementedError) as e:
             model_val = [str(e)[-500:]]
         path = write_replay(prop, {
@@ -550,7 +556,7 @@ def run_check(plugin, tier=None, replay=None):
         if not found:
             so, _, _ = plugin.evaluate([small])
             try:
-                model_val = coq_eval_terms(prop, plugin.header, [f"{plugin.model_fn} ({plugin.coq_case(small)})"])
+                model_val = coq_eval_terms(prop, header_for(plugin, small), [f"{plugin.model_fn} ({plugin.coq_case(small)})"])
             except (CheckError, NotImplementedError) as e:
                 model_val = [str(e)[-500:]]
             path = write_replay(prop, {
